@@ -4,8 +4,11 @@
 //! real agent joined to a raw peer through two real Plexers (rig of mc-net1).
 //! At every reached state and for every message variant: send / receive
 //! acceptance is compared with the specification table, the state after every
-//! exchange with the table's successor, the state after every rejection with
-//! the state before.
+//! operation with the specification state after exactly the messages the
+//! agent sent (read back from the wire) plus the injected messages it consumed
+//! (counted through the bounded demultiplexer->agent queue): an allowed
+//! consumed message moves the state as the table says, a forbidden one moves
+//! nothing.
 
 use crate::agents::*;
 use crate::engine::{replay, run_agent, AgentReport, Event, Probe, Spec};
@@ -116,7 +119,13 @@ pub fn run(ctx: Ctx) -> ! {
     let mut samples: Vec<Value> = vec![];
     let mut disagreements: Vec<Value> = vec![];
     let mut machinery: Vec<String> = vec![];
+    let mut diagnostics: Vec<Value> = vec![];
+    let mut measured = 0u64;
     for r in &reports {
+        measured += r.acc.measured;
+        for (k, d) in &r.acc.diagnostics {
+            diagnostics.push(json!({"id": k, "agent": format!("{}/{}", r.label, r.role), "what": d.0, "shortest_history": d.1, "witnesses": d.2}));
+        }
         let name = format!("{}/{}", r.label, r.role);
         states += r.stats.states;
         transitions += r.stats.transitions + r.deep.as_ref().map(|d| d.transitions).unwrap_or(0);
@@ -160,6 +169,7 @@ pub fn run(ctx: Ctx) -> ! {
                 "operations_cancelled": r.acc.cancelled_ops,
                 "operations_waiting_for_ever": r.acc.blocked,
                 "probes": r.acc.probes,
+                "consumption_measurements": r.acc.measured,
                 "distinct_outcomes": r.acc.outcomes.len(),
                 "clean_edges": r.acc.edges.len(),
                 "unfolding": r.deep.as_ref().map(|d| json!({"depth": d.max_depth, "histories": d.states, "transitions": d.transitions, "capped": d.capped})),
@@ -184,6 +194,9 @@ pub fn run(ctx: Ctx) -> ! {
         "matrix_legend" => "per reached specification state x message variant: 'send spec/impl ab recv spec/impl cd' with a = table lets this role send it, b = the agent accepted to send it (send_message, or some public operation where send_message is private), c = table lets the peer send it, d = the agent accepted to receive it",
         "per_agent" => Value::Object(per_agent),
         "disagreements" => disagreements,
+        "consumption_measurements" => measured,
+        "state_rule" => "after every operation (Ok, Err or dropped) state() must be the specification state after exactly the messages the agent put on the wire (read back from the raw side) plus the injected messages it took out of its channel (count measured through the bounded demultiplexer->agent queue); a consumed message the table allows moves the state as the table says, a consumed message the table forbids moves nothing; an operation that returned Ok must not have consumed a forbidden message",
+        "diagnostics_not_demanded_by_the_property" => diagnostics,
         "tables" => "/verif/spec/net1_protocols.json",
     };
     ctx.finish(
